@@ -33,9 +33,10 @@ template <integral Int>
     -> from_chars_result
 {
     constexpr auto options = strings::to_integer_options{
-        .skip_whitespace = false,
-        .check_overflow  = true,
-        .allow_plus_sign = false,
+        .skip_whitespace  = false,
+        .check_overflow   = true,
+        .allow_plus_sign  = false,
+        .allow_hex_prefix = false,
     };
     auto const [end, err, val] = strings::to_integer<Int, options>({first, last}, static_cast<Int>(base));
 
